@@ -4,6 +4,7 @@ CONSTANTS Keys = {1, 2, 3}
           N = 3
           BaseMax = 2
           Workers = {1}
+          SchedMuts = FALSE
           Sched = FALSE
           EmitCases = TRUE
 INVARIANTS HonestAccepted ParallelEqualsSequential WrongBALRejected CacheIsBase
